@@ -610,3 +610,21 @@ Definition c17_check (g : tsg) (sg : pgraph) : bool :=
   && forallb (fun p => forallb (fun q => negb (name_eqb (ps p) (pd q) && name_eqb (pd p) (ps q)))
                                (pedges sg)) (pedges sg)
   && meta_eqb (pgmeta sg) (tgmeta g).
+
+(** * Deciders for the hypotheses of the theorems (well-formedness, consistent template set) *)
+Definition wf_b (g : tsg) : bool :=
+  nodup_by key_eqb (map nkey (tnodes g))
+  && nodup_by ekey_eqb (map ekey (tedges g))
+  && forallb (fun e1 => forallb (fun e2 =>
+       negb (key_eqb (esrc e1) (edst e2) && key_eqb (edst e1) (esrc e2))) (tedges g)) (tedges g)
+  && forallb (fun e => node_exists g (esrc e) && node_exists g (edst e)) (tedges g)
+  && forallb (fun e => esl e <=? edl e) (tedges g).
+
+Definition consistent_b (g : tsg) : bool :=
+  wf_b g
+  && forallb (fun e1 => forallb (fun e2 =>
+       negb (name_eqb (es e1) (es e2) && name_eqb (ed e1) (ed e2) && (delta e1 =? delta e2))
+       || etype_eqb (ety e1) (ety e2)) (tedges g)) (tedges g)
+  && forallb (fun e1 => forallb (fun e2 =>
+       negb (name_eqb (es e1) (ed e2) && name_eqb (ed e1) (es e2)
+             && (delta e1 =? 0) && (delta e2 =? 0))) (tedges g)) (tedges g).
